@@ -1,7 +1,11 @@
 """C01 - request preamble decoding is exact under any record segmentation and chunking."""
 import fcgen
 from fcgen import *  # noqa
-from fvgen import case, parse_case, parse_out
+from fvgen import case, parse_case, parse_out, fmt_arg
+import importlib.util, os
+_spec5 = importlib.util.spec_from_file_location("c05", os.path.join(os.path.dirname(__file__), "C05.py"))
+C05 = importlib.util.module_from_spec(_spec5)
+_spec5.loader.exec_module(C05)
 
 RULE = ("req_run on well-formed preambles: ids incl. 1/65535, all roles, random flag bytes, pair lists with lengths from "
         "{0,1,2,5,17,126,127,128,129,200,300} (+65535/65536/70000-byte values in thorough), duplicate/case-variant/non-UTF-8 names; Params payload "
@@ -145,6 +149,22 @@ def huge_params_case(rng, sched):
     return case("req_run", [131072], [5], recs, sched), ["preamble", "huge-params", "multi-record", "big"] + (["chunked"] if sched else [])
 
 
+def pipelined_handoff_case(rng):
+    """the partition of the wire in which the request parser gets its WHOLE preamble without a single read of its own: request 2 was
+    pipelined behind request 1 (KeepConn) and arrived in the same read, so the parser that into_request_parser() builds finds the
+    complete preamble - junk, cuts, padding and all - as inherited leftover and must finish on a call without new input"""
+    B = rng.choice([1024, 8192])
+    p1 = rand_pairs(rng, rng.randrange(0, 2), 10)
+    w1 = flat(minimal_preamble(1, 1, flags=1, pairs=p1) + [record(STDIN, 1, [104, 105], rng.choice([0, 3])), record(STDIN, 1, [], rng.choice([0, 0, 5]))])
+    pairs2 = rand_pairs(rng, rng.randrange(1, 6), 30) + [(list(b"http_x"), list(b"1")), (list(b"HTTP_X"), list(b"2"))]
+    recs2, _ = preamble(rng, 2, rng.choice([1, 2, 3]), rng.choice([0, 1]), pairs2, junk_rate=0.3, idle=rng.choice([0, 1]))
+    w2 = flat(recs2)
+    # (hand-off variants 1 and 2 only: they do not parse at a record boundary; a parser told to skip - set_stream(None) + parse - would
+    # discard the pipelined request as well, by design: DESIGN.md 13.3 O4)
+    ops = [[0, 10 ** 6], [2, 10 ** 6], [4, 10 ** 6]] + rng.choice([[], [[3]]]) + [[6, 0, rng.choice([1, 2])]]
+    return "str_run " + " ".join(fmt_arg(x) for x in [[B], [3], w1 + w2] + ops), ["preamble", "junk", "pipelined-handoff", "multi-record"]
+
+
 _gen_cases_c01 = gen_cases
 
 
@@ -155,6 +175,8 @@ def gen_cases(rng, tier):
             yield huge_junk_case(rng, P, pad, sched)
     for _ in range(60 if tier == "quick" else 3000):
         yield sized_junk_case(rng)
+    for _ in range(60 if tier == "quick" else 3000):
+        yield pipelined_handoff_case(rng)
     for sched in ([[], [10 ** 6]] if tier == "quick" else [[], [10 ** 6], [66000, 10 ** 6], [30000, 10 ** 6, 10 ** 6], [4096] * 40, [65536, 65536], [100, 10 ** 6]]):
         yield huge_params_case(rng, sched)
 
@@ -165,10 +187,12 @@ def nontrivial(line, tags):
 
 def min_classes(tier):
     q = tier == "quick"
-    return {"every-cut": 200 if q else 5000, "junk": 100, "chunked": 200, "long-prefix": 100, "big": 3, "lossy": 100, "huge-junk": 6, "sized-junk": 60, "huge-params": 2}
+    return {"every-cut": 200 if q else 5000, "junk": 100, "chunked": 200, "long-prefix": 100, "big": 3, "lossy": 100, "huge-junk": 6, "sized-junk": 60, "huge-params": 2, "pipelined-handoff": 60}
 
 
 def oracle(line, impl_line):
+    if line.startswith("str_run "):
+        return C05.oracle(line, impl_line)        # class pipelined-handoff: request 2 must come out identical to what was sent
     mode, a = parse_case(line)
     o = parse_out(impl_line)
     if o is None or o == [[18446744073710440504]]:
